@@ -189,6 +189,8 @@ def assigned_names(stmts, local_defs):
                 target(f.value) if isinstance(f.value, (ast.Name, ast.Subscript)) else None
                 if isinstance(f.value, ast.Attribute):
                     fields.add(f.value.attr)
+            if isinstance(f, ast.Name) and f.id == "setattr" and n.args and isinstance(n.args[0], ast.Name):
+                names.add(n.args[0].id)
             if isinstance(f, ast.Name) and f.id in local_defs and f.id not in seen_defs:
                 seen_defs.add(f.id)
                 d = local_defs[f.id]
@@ -539,7 +541,13 @@ class Exec:
             self.exec_block(s.orelse)
 
     def st_Assign(self, s):
-        v = self.eval(s.value)
+        # declared type of the (single, plain) target: lets `{k: set() for ...}` / `{k: [] ...}` type
+        # their empty values
+        self.expected_type = self.fctx.locals.get(s.targets[0].id) if len(s.targets) == 1 and isinstance(s.targets[0], ast.Name) else None
+        try:
+            v = self.eval(s.value)
+        finally:
+            self.expected_type = None
         for t in s.targets:
             self.assign(t, v)
 
@@ -557,6 +565,7 @@ class Exec:
             v = self.typed_empty(t.id, v)
             if mutate and self.env.lookup_env(t.id) is not None:
                 # in-place mutation of a container held by a (possibly enclosing) variable
+                self.note_mutation(self.env.get(t.id), v)
                 self.env.mutate(t.id, v)
             else:
                 self.env.set(t.id, v)
@@ -575,6 +584,20 @@ class Exec:
             self.assign(t.value, newbase, mutate=True)
         else:
             raise Unsupported(f"assignment target {type(t).__name__}")
+
+    def note_mutation(self, cur, new):
+        """In-place mutation of a container that came in as a parameter (`owner` = the parameter's
+        name): allowed only if the contract declares it with c.mutates(...); the mutated value is
+        still the caller's object, so the tag is kept."""
+        owner = getattr(cur, "owner", None)
+        if owner is None:
+            return
+        if owner not in self.fctx.mutated_params:
+            self.oblige(f"{self.qualname}/frame.parameter_{owner}_is_not_mutated@{self.cur_line - self.fnode.lineno}", z3.BoolVal(False), "frame", self.cur_line)
+        try:
+            new.owner = owner
+        except AttributeError:
+            pass
 
     def typed_empty(self, name, v):
         """`[]`, `set()`, `{}` bound to a local whose type the contract declares."""
@@ -639,6 +662,8 @@ class Exec:
             if (cur is NONE or isinstance(cur, (StrV, FnV, ClassV, ModV))) and not rebinds(node.body + node.orelse, nm):
                 continue  # only method calls on an immutable value: nothing to havoc
             e.vars[nm] = self.havoc_like(cur, f"{nm}.{lid}")
+            if getattr(cur, "owner", None) is not None:
+                e.vars[nm].owner = cur.owner
         # heap: the fields the loop body may modify -- those it stores syntactically plus those that
         # the contracts of the functions it calls declare (statically, `modifies=` at registration);
         # a callee under contract without a static declaration may modify anything the enclosing
@@ -739,6 +764,14 @@ class Exec:
             self.assume(V.qforall([y], z3.Implies(f(a, seq.n, y), z3.And(wy >= 0, wy < seq.n, z3.Select(a, wy) == y)), patterns=[f(a, seq.n, y)]))
         return f(a, seq.n, x)
 
+    def seq_mem_index(self, seq, x):
+        """The witness position of `x in seq` (some j with seq[j] == x when x is a member)."""
+        m = self.seq_mem(seq, x)
+        a, n, y = m.children()
+        es = a.sort().range()
+        w = z3.Function(f"seq_mem.witness.{es}", a.sort(), z3.IntSort(), es, z3.IntSort())
+        return w(a, n, y)
+
     def trigger(self, term):
         """Keep `term` alive in the VC so that quantified hints can match it.  The
         hypothesis vf_trigger(term) uses a predicate that occurs nowhere else: it can
@@ -782,6 +815,10 @@ class Exec:
     def st_For(self, s):
         seq = self.as_seq(self.eval(s.iter), s)
         lid, inv = self.loop_invariant(s)
+        if inv is None and z3.is_int_value(z3.simplify(seq.n)) and z3.simplify(seq.n).as_long() == 0:
+            # a loop over a sequence that is empty by construction: no iteration, nothing changes
+            self.exec_block(s.orelse)
+            return
         entry_env = self.snapshot_env()
         entry_heap = dict(self.heap)
         zero = z3.IntVal(0)
@@ -791,6 +828,8 @@ class Exec:
         if which == 0:
             # arbitrary iteration
             k = z3.Const(fresh_name(f"k.{lid}"), z3.IntSort())
+            if z3.is_int_value(z3.simplify(seq.n)) and z3.simplify(seq.n).as_long() == 0:
+                raise PathEnd()  # a loop over a sequence that is empty by construction has no iteration
             self.assume(z3.And(k >= 0, k < seq.n))
             self.assume_inv(inv, LoopCtx(self, k, seq, entry_env, entry_heap))
             self.assign(s.target, seq.get(k))
@@ -949,6 +988,8 @@ class Exec:
             key = f"{base.name}.{attr}"
             if key in MODULE_ATTRS:
                 return MODULE_ATTRS[key]
+            if self.prop.lookup_callee(key, self.relfile) is not None:
+                return FnV(name=key, qual=key)  # an assumed (external) contract for module.function
             return FnV(name="builtin:" + key)
         if isinstance(base, ObjV):
             cc = self.prop.class_consts.get((base.cls, attr))
@@ -1052,6 +1093,13 @@ class Exec:
             b = b.val if isinstance(b, OptV) else b
         if isinstance(a, StrV) and isinstance(b, StrV) and isinstance(op, ast.Add):
             return StrV(a.s + b.s)
+        if isinstance(op, ast.Add) and (isinstance(a, StrV) or isinstance(b, StrV)):
+            # string constant + opaque value: concatenation as an uninterpreted function of both
+            th = self.prop.theory
+            x, y = (th.str_const(v.s) if isinstance(v, StrV) else v for v in (a, b))
+            if is_z3(x) and is_z3(y) and x.sort() == V.Val and y.sort() == V.Val:
+                return th.str_concat(x, y)
+            raise Unsupported("str + non-opaque value")
         if isinstance(op, ast.Div):
             return QuotV(to_num(a), to_num(b))
         if isinstance(op, ast.Pow):
@@ -1133,6 +1181,12 @@ class Exec:
             for x, y in zip(arrs_of(a), arrs_of(b)):
                 m = z3.Const(fresh_name("concat"), x.sort())
                 self.assume(V.qforall([i], z3.Select(m, i) == z3.If(i < a.n, z3.Select(x, i), z3.Select(y, i - a.n)), patterns=[z3.Select(m, i)]))
+                # bridge for E-matching (content-free, see trigger): an item of either operand is an item of the result
+                tr = z3.Function("vf_trigger." + str(x.sort().range()), x.sort().range(), z3.BoolSort())
+                if not z3.is_quantifier(x):
+                    self.assume(V.qforall([i], tr(z3.Select(m, i)), patterns=[z3.Select(x, i)]))
+                if not z3.is_quantifier(y):
+                    self.assume(V.qforall([i], tr(z3.Select(m, i + a.n)), patterns=[z3.Select(y, i)]))
                 arrs.append(m)
             return SeqV(a.shape, arrs if len(arrs) > 1 else arrs[0], a.n + b.n)
         if isinstance(op, ast.Mult) and isinstance(a, SeqV) and a.n.eq(z3.IntVal(1)):
@@ -1333,6 +1387,8 @@ class Exec:
 
     def ev_Subscript(self, e):
         base = self.eval(e.value)
+        if isinstance(base, ClassV) or (isinstance(base, FnV) and base.node is None and isinstance(e.value, ast.Name) and e.value.id[:1].isupper()):
+            return base  # generic alias  Cls[T]  constructs the same class
         idx = self.eval_index(e.slice)
         return self.load_index(base, idx, e)
 
